@@ -489,6 +489,19 @@ impl<'a> Ex<'a> {
             match catch(|| it.next()) {
                 Out::Panic(_) => {
                     tl!(self.tr, " walk Panic after {}", k);
+                    // calling next() again after a caught panic is still a sequence of
+                    // safe calls: whatever it returns, nothing outside the region may be
+                    // read and a returned item must lie inside the region
+                    for _ in 0..2 {
+                        match catch(|| it.next()) {
+                            Out::Val(Some(t)) => {
+                                let a = t as *const _ as *const u8 as usize;
+                                self.view(ctx, "walk.item-after-panic", a, core::mem::size_of_val(t), None);
+                            }
+                            _ => {}
+                        }
+                    }
+                    ctx.count("walk:next-after-panic");
                     return;
                 }
                 Out::Val(None) => {
